@@ -271,7 +271,7 @@ def build(tier, seed):
     for i in range(0, len(triples), 8):
         cases.append({'kind': 'tree', 'triples': [list(t) for t in triples[i:i + 8]]})
     # (iv) array mode
-    arr_lays = list(itertools.product(range(min(nl, 18)), repeat=2))
+    arr_lays = list(itertools.product(range(min(nl, 20)), repeat=2))
     for la, lb in arr_lays:
         cases.append({'kind': 'array', 'la': la, 'lb': lb})
     return cases
